@@ -198,6 +198,28 @@ fn gen_string(src: &mut Src) -> Lexeme {
     if body.chars().all(|c| matches!(c, '0' | '1' | '_')) {
         body.push('s');
     }
+    match src.below(6) {
+        // escape sequences somewhere in an ordinary string
+        0 => {
+            let esc = ["\\\\", "\\\"", "\\'", "\\n", "\\t", "\\x41", "\\0"][src.below(7)];
+            let at = body.char_indices().map(|(i, _)| i).nth(src.below(body.chars().count())).unwrap_or(0);
+            body.insert_str(at, esc);
+        }
+        // bits, underscores and escape sequences only: a string, not a bit string
+        1 => {
+            body.clear();
+            let k = 1 + src.below(6);
+            let at = src.below(k);
+            for i in 0..k {
+                if i == at {
+                    body.push_str(["\\\\", "\\\"", "\\'"][src.below(3)]);
+                } else {
+                    body.push(['0', '1', '_', '1', '0'][src.below(5)]);
+                }
+            }
+        }
+        _ => {}
+    }
     lx(&format!("{q}{body}{q}"), "STRING", Cls::Str, "string")
 }
 
@@ -470,7 +492,10 @@ pub fn gen_malformed(src: &mut Src, allow_swallow: bool) -> Lexeme {
             l
         }
         7 => {
-            let p = ["x😀", "😀", "a😀b", "q_😀😀", "é😀", "pragma😀", "pragma😀x", "int😀", "gate😀q", "measure😀", "OPENQASMx😀", "dim😀", "im😀", "ns😀"][src.below(14)];
+            let p = ["x😀", "😀", "a😀b", "q_😀😀", "é😀", "pragma😀", "pragma😀x", "int😀", "gate😀q", "measure😀", "OPENQASMx😀", "dim😀", "im😀", "ns😀",
+                // emoji of other kinds: flags (regional indicators), skin-tone and hair components,
+                // joined sequences, symbols with and without variation selector, older symbols
+                "q🇩🇪", "🇺🇸", "total🇺🇸count", "b🏽", "🦰f", "👍🏽x", "a👨\u{200d}👩\u{200d}👧b", "x©", "x™y", "q❤", "q❤\u{fe0f}", "q⭐", "a‼", "q🀄", "q♻"][src.below(29)];
             lx(p, "IDENT", Cls::Word, "ident-emoji")
         }
         8 => {
@@ -479,7 +504,7 @@ pub fn gen_malformed(src: &mut Src, allow_swallow: bool) -> Lexeme {
             l.first = Cls::Punct('#');
             l
         }
-        9 => lx("$😀", "IDENT", Cls::Word, "hardware-emoji"),
+        9 => lx(["$😀", "$🇫🇷", "$🏽", "$❤"][src.below(4)], "IDENT", Cls::Word, "hardware-emoji"),
         10 => {
             let p = ["OPENQASM 3.x", "OPENQASM 03.", "OPENQASM 3._"][src.below(3)];
             let mut l = lx(p, "VERSION_STRING", Cls::Version, "bad-version-2");
